@@ -7,8 +7,8 @@
 //!   (wecl10 game (<write table>) <structure>)    -> (ok x<bytes>)    | (err class) | (panic file msg)
 //!   (rinstrs10 x<bytes>)                         -> (ok (i10 ..)..)  | (err class)      the bytes as the only sub of a file
 //!   (winstrs10 (i10 ..)..)                       -> (ok x<bytes>)    | (err class)      the sub's bytes of the written file
-//!   (wrecl10 game <structure>)     oracle: the written structure read back == the requested one (NUL-free names:
-//!                                  the Lean theorem `ecl10_read_write`); a NUL inside an include name is the known finding
+//!   (wrecl10 game <structure>)     oracle: the written structure read back == the requested one (the Lean theorem
+//!                                  `ecl10_read_write`); a name containing U+0000 must be rejected with a diagnostic (dcd07d9)
 //!   (ecl10src game source)         oracle: the include lists and sub names a SOURCE asks for are what a reader of the
 //!                                  compiled file sees, and every string section of the file is a multiple of 4 bytes long
 //!
@@ -128,6 +128,7 @@ pub fn err_class10(diags: &str) -> String {
         ("sub offsets are not sorted", "sub offsets are not sorted!"),
         ("include section is too large to fit", "include section is too large to fit!"),
         ("string encoding error", "string encoding error"),
+        ("cannot contain a NUL character", "string in a list of names cannot contain a NUL character"),
     ];
     for (needle, class) in TABLE { if line.contains(needle) { return class.to_string(); } }
     super::files::file_err_class(diags)
@@ -231,8 +232,10 @@ pub fn eval_wrecl10(case: &Sexp) -> Sexp {
         tc::write_bytes(truth, Format::Ecl, game, &Compiled::Ecl(truth::EclFile::Stack(f)))
     });
     let bytes = match out.value { Some(b) => b, None => return Sexp::app("rejected", vec![Sexp::str(err_class10(&out.diagnostics))]) };
-    // a NUL inside a name is the known finding (Lean: `ecl10_nul_in_name_unreadable`): one signature for both ways it shows
+    // a NUL inside a name must be rejected by the writer (dcd07d9; Lean: `ecl10_nul_in_name_rejected`, `ecl10_write_ok_nul_free`);
+    // a silent write that comes back is reported under the signature of the repaired finding, whatever the reader makes of the file
     let nul = has_nul_name(st);
+    if nul { return super::fail(NUL_SIG, format!("{game}: a name containing U+0000 was written without a diagnostic ({} bytes); structure {}", bytes.len(), clip(format!("{st}")))); }
     let back = tc::with_truth(Format::Ecl, game, &[], |truth| read_stack(truth, game, &bytes));
     match back.value {
         None => super::fail(if nul { NUL_SIG.to_string() } else { "written-structure-unreadable ecl10".to_string() }, format!("{game}: {} ; structure {}", err_class10(&back.diagnostics), clip(format!("{st}")))),
@@ -280,6 +283,8 @@ pub fn eval_ecl10src(case: &Sexp) -> Sexp {
         Some(b) => b,
         None => return if c.has_error_diag() { Sexp::app("rejected", vec![Sexp::str(crate::util::diag_class(&c.diagnostics))]) } else { super::fail("compile-fails-without-error-diagnostic", format!("ecl {game}")) },
     };
+    // `\\0` in a string literal of the source is U+0000 in the name: must have been rejected (dcd07d9)
+    if src.contains("\\0") { return super::fail(NUL_SIG, format!("{game}: a source with U+0000 in an include name compiled without a diagnostic ({} bytes): {}", bytes.len(), clip(src.to_string()))); }
     if let Some(secs) = string_sections(&bytes) {
         for (k, (_, len)) in secs.iter().enumerate() {
             if len % 4 != 0 { return super::fail("string-section-not-a-multiple-of-4 ecl10", format!("{game}: section {} of the compiled file is {len} bytes long; source {}", ["ANIM", "ECLI", "sub names"][k], clip(src.to_string()))); }
